@@ -76,18 +76,18 @@ func main() {
 	}
 	lists, space := compositeLists(r)
 	if r.Want("composite-routing") {
-		runCompositeSub(r, "composite-routing", space+" x 3 instance names x 6 digests (2 real SHA-256, 2 crafted sharing the leading 8 bytes with them under another tail / digest function, all-zero, all-ff) x {Put,Get,FindMissing; GetFromComposite with each of the 6 child digests}", lists,
+		runCompositeSub(r, "composite-routing", space+" x 3 instance names x 8 digests (2 real SHA-256, 2 crafted sharing the leading 8 bytes with them under another tail / digest function, all-zero, all-ff, 2 sharing only the leading 4 bytes) x {Put,Get,FindMissing; GetFromComposite with each of the 8 child digests}", lists,
 			func(l []shardJ, st *compStats, emit func(compViol)) { runRouting(l, nil, st, emit) })
 	}
 	if r.Want("composite-findmissing") {
 		us := fmUniverses(r.Thorough())
-		runCompositeSub(r, "composite-findmissing", space+fmt.Sprintf(" x 4 digest universes (6 digests under each of 3 instance names; %d mixed (digest, instance name) pairs) x presence patterns (all 64 for the 6-digest universe under instance name \"\" and, in the thorough tier, under the other two names; otherwise none/all/alternating/each single present/each single absent; present = held only by its own shard, absent = held by every other shard) x every asked subset", len(us[3])), lists,
+		runCompositeSub(r, "composite-findmissing", space+fmt.Sprintf(" x 4 digest universes (8 digests under each of 3 instance names; %d mixed (digest, instance name) pairs) x presence patterns (all 256 for the 8-digest universe under instance name \"\" and, in the thorough tier, under the other two names; otherwise none/all/alternating/each single present/each single absent; present = held only by its own shard, absent = held by every other shard) x every asked subset", len(us[3])), lists,
 			func(l []shardJ, st *compStats, emit func(compViol)) {
 				runFindMissing(l, us, r.Thorough(), nil, st, emit)
 			})
 	}
 	if r.Want("composite-errors") {
-		runCompositeSub(r, "composite-errors", space+" x every failing-shard assignment (one shard INTERNAL or UNAVAILABLE; two shards, one each) x 2 instance names x ({Put,Get,GetFromComposite,FindMissing} x 6 digests + FindMissing of every subset of the 6 digests)", lists,
+		runCompositeSub(r, "composite-errors", space+" x every failing-shard assignment (one shard INTERNAL or UNAVAILABLE; two shards, one each) x 2 instance names x ({Put,Get,GetFromComposite,FindMissing} x 8 digests + FindMissing of every subset of the 8 digests)", lists,
 			func(l []shardJ, st *compStats, emit func(compViol)) { runErrors(l, nil, st, emit) })
 	}
 	if r.Want("configuration") {
